@@ -117,3 +117,25 @@ func VH_C08_mac_laws() {
 	vrt.Equal(m, m0, "the message is not modified (MAC)")
 	vrt.Assert(k == ksnap, "the key is not modified (MAC)")
 }
+
+// The message / payload handed in as a window into a larger buffer (msg := buf[:n], spare capacity behind it, as
+// when a PDU is sliced out of a receive buffer): nothing behind the window is written, neither by the MAC functions
+// (which must not write at all) nor by the ciphers (which rewrite exactly payload[:n]).
+func VH_C08_window() {
+	c08abstract()
+	n := vrt.Choose("n", 0, 17)
+	spare := vrt.Choose("spare", 1, 9)
+	alg := uint8(vrt.Choose("alg", 0, 3))
+	k := c08key("k")
+	buf := vrt.Bytes("buf", n+spare)
+	snap := append([]byte{}, buf...)
+	count, bearer, dir := vrt.U32("count"), vrt.U8("bearer")&31, vrt.U8("dir")&1
+	if vrt.Bool("mac") {
+		mac, err := NASMacCalculate(alg, k, count, bearer, dir, buf[:n])
+		vrt.Assert(err == nil && len(mac) == 4, "a MAC of a window is 4 octets")
+		vrt.Equal(buf, snap, "the MAC functions write neither the message nor the buffer behind it")
+		return
+	}
+	vrt.Assert(NASEncrypt(alg, k, count, bearer, dir, buf[:n]) == nil, "NASEncrypt of a window succeeds")
+	vrt.Equal(buf[n:], snap[n:], "ciphering writes nothing behind the payload")
+}
